@@ -259,6 +259,9 @@ class Parser:
             self.eat()
             m = re.match(r'(0[xX][0-9a-fA-F_]+|0[bB][01_]+|0[oO][0-7_]+|[0-9][0-9_]*)', v)
             return ('num', int(m.group(1).replace('_', ''), 0))
+        if k == 'str':
+            self.eat()
+            return ('str', v)
         if v == '(':
             self.eat('(')
             e = self.expr()
